@@ -21,6 +21,8 @@ Nothing is skipped or guessed.
 Supported subset (anything else fails)
   statements   docstring; `name = e`, `name: T = e`, `name op= e`, `self._x = e` (op in + - *);
                `if / elif / else`; `raise <Exc>(f"..")`; `return e`; `pass`; `break`;
+               `try: .. except <Exc>: ..` with one handler, both blocks returning on every path, in a
+               method that neither consumes stream output nor touches mutable attributes;
                `logger.<m>("text")` (no effect); the calls `super().__init__(..)`,
                `self._set_stream(..)`, `super()._set_stream(..)` as statements (inlined);
                `for _ in range(e)`; `while` in three shapes (below)
@@ -40,6 +42,8 @@ Meaning given to them
     not yet consumed), the methods of DistNormal / DistLogNormal that touch the cached gaussian in
     `M` with the two attributes `_have_saved_gaussian`, `_saved_gaussian` passed explicitly and
     returned ALSO when an exception is raised; densities in `res`;
+  * the value of math.comb / math.factorial is an unbounded int: where it meets a float in + - * / it is
+    converted by `ofZc` (OverflowError beyond the double range, as CPython's int -> float does);
   * a float literal c is `ofZ c` when integral, else `ofD m e` with c = m * 2^e, m odd; a negative
     literal is the negation of the positive one; an int meets a float as `ofZ i`;
   * a constructor parameter ranges over the model's universe `param` (float, int, anything else):
@@ -190,10 +194,12 @@ class NotSimple(Exception):
 
 class V:
     """a translated value: type tag, Gallina text (atomic or parenthesised) or a Python constant"""
-    __slots__ = ("ty", "tx", "const")
+    __slots__ = ("ty", "tx", "const", "big")
 
-    def __init__(self, ty, tx=None, const=None):
-        self.ty, self.tx, self.const = ty, tx, const
+    def __init__(self, ty, tx=None, const=None, big=False):
+        # big: an int without a bound (math.comb / math.factorial and sums / products of them); where it meets a
+        # float CPython converts it with a range check (OverflowError), see `float_of`
+        self.ty, self.tx, self.const, self.big = ty, tx, const, big
 
     def key(self):
         return (self.ty, self.tx, repr(self.const))
@@ -544,6 +550,9 @@ class Translator:
         if v.ty == "F":
             return self.text(v)
         if v.ty == "Z":
+            if v.big:
+                raise Unsupported(self.ctx.node, "an unbounded int (math.comb / math.factorial) used as a float other than "
+                                                 "as an operand of + - * /")
             if v.const is not None:
                 c = v.const
                 if abs(c) >= 2 ** 53:
@@ -677,9 +686,9 @@ class Translator:
         for n in ast.walk(f):
             if isinstance(n, (ast.FunctionDef, ast.AsyncFunctionDef, ast.Lambda, ast.ClassDef)) and n is not f:
                 self.fail(n, "nested function / class / lambda")
-            if isinstance(n, (ast.Yield, ast.YieldFrom, ast.Await, ast.Global, ast.Nonlocal, ast.Try, ast.With, ast.Delete,
+            if isinstance(n, (ast.Yield, ast.YieldFrom, ast.Await, ast.Global, ast.Nonlocal, ast.With, ast.Delete,
                               ast.NamedExpr, ast.ListComp, ast.SetComp, ast.DictComp, ast.GeneratorExp, ast.Starred)):
-                self.fail(n, type(n).__name__)
+                self.fail(n, type(n).__name__)       # (a `try` is translated - or refused - by try_)
         is_ctor = mname == "__init__"
         stream, mut, used = self.analyse(cname, defcls, mname)
         stateful = bool(self.mutable(cname))
@@ -858,6 +867,8 @@ class Translator:
             return self.expr(e, env, lambda v, e2: self.assign(s, s.target, v, e2, k))
         if isinstance(s, ast.If):
             return self.if_(s, env, k)
+        if isinstance(s, ast.Try):
+            return self.try_(s, env)
         if isinstance(s, ast.While):
             return self.loop(s, env, k)
         if isinstance(s, ast.For):
@@ -873,6 +884,24 @@ class Translator:
                 return self.call_stmt(s.value, env, k)
             self.fail(s, f"expression statement {type(s.value).__name__}")
         self.fail(s, f"statement {type(s).__name__}")
+
+    def try_(self, s, env):
+        """try: <block that returns>  except <E>: <block that returns>   in a method without stream consumption or
+        mutable attributes:  on_exn E <body> <handler>.  Both blocks must return on every path (a path that falls out
+        of either block is refused), there is one handler, for one of the modelled exception types, without `as`."""
+        if self.ctx.mode != "res" or self.ctx.kind == "ctor" or self.ctx.retk:
+            self.fail(s, "try / except outside a stream-free method whose value is returned")
+        if s.orelse or s.finalbody or len(s.handlers) != 1:
+            self.fail(s, "try with else / finally / several handlers")
+        h = s.handlers[0]
+        if h.name is not None or not isinstance(h.type, ast.Name) or h.type.id not in EXN:
+            self.fail(s, "except clause other than `except <ValueError|ZeroDivisionError|OverflowError|TypeError>:`")
+
+        def falls_out(_e):
+            self.fail(s, "a path through a try / except block that does not end in `return`")
+        body = self.block(s.body, env.clone(), falls_out)
+        hand = self.block(h.body, env.clone(), falls_out)
+        return f"on_exn {EXN[h.type.id]}\n{ind(blockp(body))}\n{ind(blockp(hand))}"
 
     def exc_name(self, s):
         e = s.exc
@@ -1223,6 +1252,13 @@ class Translator:
         except Impure:
             self.fail(e, "boolean expression that needs a bind (division, math call, stream) used as a value")
 
+    def float_of(self, node, v, env, k):
+        """the float an F / Z operand of mixed arithmetic stands for; an unbounded int is converted with CPython's
+        range check (`ofZc`: OverflowError), at the point of the operation"""
+        if v.ty == "Z" and v.big:
+            return self.bind(node, "res", f"ofZc N {paren(self.text(v))}", "F", env, k, "c")
+        return k(V("F", self.ftext(v)), env)
+
     def arith(self, node, op, a, b, env, k):
         a, b = self.numeric(node, a, env), self.numeric(node, b, env)
         if op == "**":
@@ -1234,11 +1270,16 @@ class Translator:
                 self.fail(node, "int / int")
             if a.const is not None and b.const is not None:
                 return k(V("Z", const={"+": a.const + b.const, "-": a.const - b.const, "*": a.const * b.const}[op]), env)
-            return k(V("Z", f"({self.text(a)} {op} {self.text(b)})%Z"), env)
-        at, bt = self.ftext(a), self.ftext(b)
-        if op == "/":
-            return self.bind(node, "res", f"{at} /. {bt}", "F", env, k, "q")
-        return k(V("F", f"({at} {op}. {bt})"), env)
+            return k(V("Z", f"({self.text(a)} {op} {self.text(b)})%Z", big=a.big or b.big), env)
+
+        def with_a(fa, e1):
+            def with_b(fb, e2):
+                at, bt = self.text(fa), self.text(fb)
+                if op == "/":
+                    return self.bind(node, "res", f"{at} /. {bt}", "F", e2, k, "q")
+                return k(V("F", f"({at} {op}. {bt})"), e2)
+            return self.float_of(node, b, e1, with_b)
+        return self.float_of(node, a, env, with_a)
 
     # ---- comparisons
     CMPOPS = {ast.Lt: "<", ast.Gt: ">", ast.LtE: "<=", ast.GtE: ">=", ast.Eq: "==", ast.NotEq: "!="}
@@ -1435,14 +1476,14 @@ class Translator:
                     v = self.numeric(e, v, e1)
                     if v.ty != "Z":
                         self.fail(e, "math.factorial of a float")
-                    return k(V("Z", f"(zfact (Z.to_nat {self.text(v)}))"), e1)
+                    return k(V("Z", f"(zfact (Z.to_nat {self.text(v)}))", big=True), e1)
                 return self.expr(e.args[0], env, fa)
             if f.attr == "comb" and len(e.args) == 2:
                 def cb(vs, e1):
                     vs = [self.numeric(e, v, e1) for v in vs]
                     if any(v.ty != "Z" for v in vs):
                         self.fail(e, "math.comb of a float")
-                    return k(V("Z", f"(zcomb {self.text(vs[0])} {self.text(vs[1])})"), e1)
+                    return k(V("Z", f"(zcomb {self.text(vs[0])} {self.text(vs[1])})", big=True), e1)
                 return self.exprs(e.args, env, cb)
             self.fail(e, f"math.{f.attr}() with {len(e.args)} arguments")
         if isinstance(f, ast.Attribute) and isinstance(f.value, ast.Attribute) and isinstance(f.value.value, ast.Name) \
